@@ -183,7 +183,8 @@ Inductive view :=
 | VPyInt (z : Z)
 | VPyStr (s : string)
 | VGen (g : gcls) (s : string) (fl : option Z)
-      (** [s] = str(x); [fl] = Some v when float(x) succeeds (arithmetic over Python numbers only) *)
+      (** [s] = str(x); [fl] = Some v when float(x) succeeds (arithmetic over Python ints only); only the pre-d84a976
+          FloatLiteral.__eq__ looked at it *)
 | VInt (z : Z) (kind : view) (s : string)
 | VFloat (v : string) (kind : view) (s : string)
 | VStrLit (v : string) (s : string)
@@ -301,8 +302,23 @@ Definition int_eq (rec : view -> view -> bool) (a b : view) : bool :=
   | _ => false
   end.
 
-(** FloatLiteral.__eq__ ; float(other) goes through pymbolic's Expression.__float__ for nodes *)
+(** FloatLiteral.__eq__ (after commit d84a976): any other pymbolic Expression compares unequal; float(other) is only
+    tried for Python values *)
 Definition float_eq (rec : view -> view -> bool) (a b : view) : bool :=
+  match a with
+  | VFloat v k _ =>
+      match b with
+      | VFloat v' k' _ => String.eqb v v' && rec k k'
+      | VPyInt y => float_is_int v y
+      | VPyStr t => float_same v t
+      | _ => false
+      end
+  | _ => false
+  end.
+
+(** the body before d84a976: float(other) was also tried for nodes and went through pymbolic's Expression.__float__,
+    which evaluates arithmetic over Python numbers (kept to state what was wrong, finding F6c) *)
+Definition float_eq_old (rec : view -> view -> bool) (a b : view) : bool :=
   match a with
   | VFloat v k _ =>
       match b with
@@ -379,14 +395,10 @@ Definition shortcut (v : view) : bool :=
   | VRange _ st _ step _ => node_eq st (VPyInt 1) && is_none step
   | _ => false
   end.
-Definition evaluable (v : view) : bool := match v with VGen _ _ (Some _) => true | _ => false end.
-Definition is_float (v : view) : bool := match v with VFloat _ _ _ => true | _ => false end.
 
-(** neither side (nor the kinds that get compared) is a shortcut range, and no FloatLiteral meets an
-    arithmetic node made of Python numbers only *)
+(** neither side (nor the kinds that get compared) is a shortcut range *)
 Fixpoint pair_ok (a b : view) : bool :=
   negb (shortcut a) && negb (shortcut b)
-  && negb (is_float a && evaluable b) && negb (is_float b && evaluable a)
   && match a with
      | VInt _ k _ => match b with VInt _ k' _ => pair_ok k k' | _ => true end
      | VFloat _ k _ => match b with VFloat _ k' _ => pair_ok k k' | _ => true end
@@ -632,25 +644,26 @@ Definition gcls_of (k : kind) : gcls :=
 
 Definition nthv (l : list view) (i : nat) : view := nth i l VPyNone.
 
+(** the view of a node from its kind, payloads, printed text [s], float value [fl] and the views of its children *)
+Definition view_node (k : kind) (z : Z) (lit s : string) (fl : option Z) (vs : list view) : view :=
+  match k with
+  | KPyNone => VPyNone
+  | KPyInt => VPyInt z
+  | KPyStr => VPyStr lit
+  | KInt => VInt z (nthv vs 0) s
+  | KFloat => VFloat lit (nthv vs 0) s
+  | KStrLit => VStrLit lit s
+  | KRange => VRange RRange (nthv vs 0) (nthv vs 1) (nthv vs 2) s
+  | KRangeIndex => VRange RRangeIndex (nthv vs 0) (nthv vs 1) (nthv vs 2) s
+  | KLoopRange => VRange RLoopRange (nthv vs 0) (nthv vs 1) (nthv vs 2) s
+  | KQuotient => VQuot false (nthv vs 0) (nthv vs 1) s
+  | KPDiv => VQuot true (nthv vs 0) (nthv vs 1) s
+  | _ => VGen (gcls_of k) s fl
+  end.
+
 Fixpoint view_of (t : tree) : view :=
   match t with
-  | TN k name z lit kws ch =>
-      let s := tstr t in
-      let vs := map view_of ch in
-      match k with
-      | KPyNone => VPyNone
-      | KPyInt => VPyInt z
-      | KPyStr => VPyStr lit
-      | KInt => VInt z (nthv vs 0) s
-      | KFloat => VFloat lit (nthv vs 0) s
-      | KStrLit => VStrLit lit s
-      | KRange => VRange RRange (nthv vs 0) (nthv vs 1) (nthv vs 2) s
-      | KRangeIndex => VRange RRangeIndex (nthv vs 0) (nthv vs 1) (nthv vs 2) s
-      | KLoopRange => VRange RLoopRange (nthv vs 0) (nthv vs 1) (nthv vs 2) s
-      | KQuotient => VQuot false (nthv vs 0) (nthv vs 1) s
-      | KPDiv => VQuot true (nthv vs 0) (nthv vs 1) s
-      | _ => VGen (gcls_of k) s (pyconst t)
-      end
+  | TN k name z lit kws ch => view_node k z lit (tstr t) (pyconst t) (map view_of ch)
   end.
 
 (** two trees that differ only in the letter case of identifiers (names, keyword names) *)
@@ -673,13 +686,13 @@ Fixpoint tsim (t u : tree) : Prop :=
 Definition opt_str_ok (o : option string) (s : string) : bool :=
   match o with Some x => String.eqb x s | None => true end.
 
-(** the implementation reported: a==b, b==a, hash(a)==hash(b), b in {a: 1}, canonical strings of a and b (nodes only) *)
-Definition chk_pair (ta tb : tree) (ab ba hh ind : bool) (ca cb : option string) : bool :=
+(** the implementation reported: a==b, b==a, hash(a)==hash(b), b in {a: 1}, str(a) and str(b) (nodes only) *)
+Definition chk_pair (ta tb : tree) (ab ba hh ind : bool) (sa sb : option string) : bool :=
   let a := view_of ta in let b := view_of tb in
   Bool.eqb (node_eq a b) ab && Bool.eqb (node_eq b a) ba
   && Bool.eqb (hkey_eqb (hkey_of a) (hkey_of b)) hh
   && Bool.eqb (hkey_eqb (hkey_of a) (hkey_of b) && node_eq a b) ind
-  && opt_str_ok ca (canon (tstr ta)) && opt_str_ok cb (canon (tstr tb)).
+  && opt_str_ok sa (tstr ta) && opt_str_ok sb (tstr tb).
 
 (** str(x) itself (not only its canonical form) *)
 Definition chk_str (t : tree) (s : string) : bool := String.eqb (tstr t) s.
